@@ -241,6 +241,12 @@ class BufferAnalysis:
                 ne.lo = max(ne.lo, 1)
                 return t, f
             lhs_rem = self.is_remaining(l) or l in st.alias
+            rhs_rem = self.is_remaining(r) or r in st.alias
+            if rhs_rem and not lhs_rem and op in ("<", ">=", "==", ">", "<=", "!="):
+                # `N > remaining` is `remaining < N`: mirror the comparison
+                l, r = r, l
+                op = {"<": ">", ">": "<", "<=": ">=", ">=": "<=", "==": "==", "!=": "!="}[op]
+                lhs_rem = True
             if lhs_rem and op in ("<", ">=", "==", ">", "<=", "!="):
                 val = CONSTS.get(r)
                 if val is None and r.isdigit():
@@ -257,6 +263,9 @@ class BufferAnalysis:
                     return t, f
                 if op == ">" and val is not None:
                     t.lo = max(t.lo, val + 1)
+                    return t, f
+                if op == "<=" and val is not None:  # remaining <= N: the false branch has more than N
+                    f.lo = max(f.lo, val + 1)
                     return t, f
             if op == "&&":
                 t1, f1 = self.cond(inner[0], st)
